@@ -101,6 +101,10 @@ type (
 		To types.Type // nil = nil case
 	}
 	TUnknown struct{ Why string }
+	TFunc    struct { // a declared function used as a value, with its type arguments when it is an instance of a generic function
+		Fun   *types.Func
+		TArgs []types.Type
+	}
 )
 
 func tkeys(ts []Term) string {
@@ -146,6 +150,13 @@ func (t TAddr) Key() string    { return "&" + key(t.X) }
 func (t TDeref) Key() string   { return fmt.Sprintf("*%s!%d", key(t.X), t.Epoch) }
 func (t TTypeIs) Key() string  { return fmt.Sprintf("typeis(%s,%s)", key(t.X), typeKey(t.To)) }
 func (t TUnknown) Key() string { return "?" + t.Why }
+func (t TFunc) Key() string {
+	k := "func:" + t.Fun.FullName()
+	for _, a := range t.TArgs {
+		k += "," + typeKey(a)
+	}
+	return k
+}
 func (t TLit) Key() string {
 	return fmt.Sprintf("lit%d<%s>{%s}", t.Fresh, typeKey(t.Type), tkeys(t.Elts))
 }
@@ -276,6 +287,7 @@ type SX struct {
 	ForceStep func(*types.Func) bool // calls recorded as effect steps even when pure (ordering matters to the rule)
 	addrTaken map[types.Object]bool
 	loopID    int
+	instArgs  []types.Type // type arguments of the generic function being inlined through a function value
 	fresh     int
 	budget    int
 }
@@ -1049,10 +1061,23 @@ func (x *SX) forStmt(v *ast.ForStmt, st *sxState) []outcome {
 		}
 		x.loopID++
 		id := x.loopID
-		o1, rec := x.forOnce(v, oc, id, 1)
+		var extra []types.Object
+		o1, rec := x.forOnce(v, oc, id, 1, extra)
+		for k := 0; k < 4; k++ {
+			// variables assigned by code that is not syntactically in the loop (an inlined function value that captures them) are loop-carried too
+			more := missedCarried(rec, oc.st.env)
+			if len(more) == 0 {
+				break
+			}
+			extra = append(extra, more...)
+			o1, rec = x.forOnce(v, oc, id, 1, extra)
+		}
+		if len(missedCarried(rec, oc.st.env)) > 0 {
+			x.unsupported(oc.st, "loop-carried variables could not be determined")
+		}
 		if loopQuiet(rec) {
 			// nothing in the loop writes memory: loads inside it see the state at its entry (no new memory epoch)
-			o1, rec = x.forOnce(v, oc, id, 0)
+			o1, rec = x.forOnce(v, oc, id, 0, extra)
 			rec.Quiet = true
 		}
 		res = append(res, o1...)
@@ -1078,7 +1103,39 @@ func loopQuiet(rec *LoopRec) bool {
 	return true
 }
 
-func (x *SX) forOnce(v *ast.ForStmt, oc outcome, id int, bump int) ([]outcome, *LoopRec) {
+// missedCarried: variables bound before the loop whose value at the end of some iteration differs from the value the iteration
+// started with although the loop head did not treat them as loop-carried.
+func missedCarried(rec *LoopRec, before map[types.Object]Term) []types.Object {
+	set := map[types.Object]bool{}
+	for _, p := range rec.Iter {
+		if p.End != "fall" && p.End != "continue" {
+			continue
+		}
+		for o, t := range p.Env {
+			h, had := rec.HeadEnv[o]
+			if !had {
+				continue
+			}
+			if _, outer := before[o]; !outer {
+				continue
+			}
+			if lv, ok := h.(TLoop); ok && lv.ID == rec.ID && lv.Obj == o {
+				continue // already carried
+			}
+			if !sameTerm(h, t) {
+				set[o] = true
+			}
+		}
+	}
+	var out []types.Object
+	for o := range set {
+		out = append(out, o)
+	}
+	sort.Slice(out, func(i, j int) bool { return out[i].Pos() < out[j].Pos() })
+	return out
+}
+
+func (x *SX) forOnce(v *ast.ForStmt, oc outcome, id int, bump int, extra []types.Object) ([]outcome, *LoopRec) {
 	var res []outcome
 	rec := &LoopRec{ID: id, Node: v, For: v, Post: v.Post, Init: map[types.Object]Term{}, HeadEpoch: oc.st.epoch + bump}
 	inside := func(o types.Object) bool { return o.Pos() >= v.Body.Pos() && o.Pos() < v.Body.End() }
@@ -1087,6 +1144,7 @@ func (x *SX) forOnce(v *ast.ForStmt, oc outcome, id int, bump int) ([]outcome, *
 	if v.Post != nil {
 		carried = append(carried, x.assignedIn(v.Post)...)
 	}
+	carried = append(carried, extra...)
 	for _, o := range carried {
 		if t, ok := oc.st.env[o]; ok && !inside(o) {
 			rec.Init[o] = t
@@ -1096,6 +1154,9 @@ func (x *SX) forOnce(v *ast.ForStmt, oc outcome, id int, bump int) ([]outcome, *
 	x.havoc(v.Body, head, id, inside)
 	if v.Post != nil {
 		x.havoc(v.Post, head, id, inside)
+	}
+	for _, o := range extra {
+		head.env[o] = TLoop{o, id}
 	}
 	rec.HeadEnv = copyEnv(head.env)
 	iter := &sxState{env: copyEnv(head.env), epoch: head.epoch + bump, heap: head.heap, stack: head.stack, tsub: head.tsub}
@@ -1139,9 +1200,21 @@ func (x *SX) rangeStmt(v *ast.RangeStmt, st *sxState) []outcome {
 		}
 		x.loopID++
 		id := x.loopID
-		o1, rec := x.rangeOnce(v, ev, id, 1)
+		var extra []types.Object
+		o1, rec := x.rangeOnce(v, ev, id, 1, extra)
+		for k := 0; k < 4; k++ {
+			more := missedCarried(rec, ev.st.env)
+			if len(more) == 0 {
+				break
+			}
+			extra = append(extra, more...)
+			o1, rec = x.rangeOnce(v, ev, id, 1, extra)
+		}
+		if len(missedCarried(rec, ev.st.env)) > 0 {
+			x.unsupported(ev.st, "loop-carried variables could not be determined")
+		}
 		if loopQuiet(rec) {
-			o1, rec = x.rangeOnce(v, ev, id, 0)
+			o1, rec = x.rangeOnce(v, ev, id, 0, extra)
 			rec.Quiet = true
 		}
 		res = append(res, o1...)
@@ -1149,17 +1222,20 @@ func (x *SX) rangeStmt(v *ast.RangeStmt, st *sxState) []outcome {
 	return res
 }
 
-func (x *SX) rangeOnce(v *ast.RangeStmt, ev evalOut, id int, bump int) ([]outcome, *LoopRec) {
+func (x *SX) rangeOnce(v *ast.RangeStmt, ev evalOut, id int, bump int, extra []types.Object) ([]outcome, *LoopRec) {
 	var res []outcome
 	rec := &LoopRec{ID: id, Node: v, Range: v, Over: ev.val, Init: map[types.Object]Term{}, HeadEpoch: ev.st.epoch + bump}
 	inside := func(o types.Object) bool { return o.Pos() >= v.Pos() && o.Pos() < v.End() }
-	for _, o := range x.assignedIn(v.Body) {
+	for _, o := range append(x.assignedIn(v.Body), extra...) {
 		if t, ok := ev.st.env[o]; ok && !inside(o) {
 			rec.Init[o] = t
 		}
 	}
 	head := ev.st.clone()
 	x.havoc(v.Body, head, id, inside)
+	for _, o := range extra {
+		head.env[o] = TLoop{o, id}
+	}
 	if id, ok := v.Key.(*ast.Ident); ok && id.Name != "_" {
 		rec.Key = x.c.obj(id)
 	}
@@ -1243,6 +1319,15 @@ func (x *SX) evalFork(e ast.Expr, st *sxState) []evalOut {
 		}
 		if x.addrTaken[o] {
 			return one(TDeref{X: TAddr{TVar{o}}, Epoch: st.heap})
+		}
+		if f, ok := o.(*types.Func); ok {
+			tf := TFunc{Fun: f}
+			if inst, ok := c.Info.Instances[v]; ok && inst.TypeArgs != nil {
+				for i := 0; i < inst.TypeArgs.Len(); i++ {
+					tf.TArgs = append(tf.TArgs, st.subst(inst.TypeArgs.At(i)))
+				}
+			}
+			return one(tf)
 		}
 		return one(TVar{o})
 	case *ast.BasicLit:
@@ -1583,11 +1668,16 @@ func (x *SX) call(call *ast.CallExpr, st *sxState, nres int) []evalOut {
 				continue
 			}
 			args := ao.parts
-			// function literal value?
+			// function literal value? a declared function handed around as a value?
 			var lit *ast.FuncLit
+			fun := fun
+			var targs []types.Type
 			if fun == nil {
-				if t, ok := x.eval(call.Fun, ao.st).(TLit); ok {
+				switch t := x.eval(call.Fun, ao.st).(type) {
+				case TLit:
 					lit, _ = t.Node.(*ast.FuncLit)
+				case TFunc:
+					fun, targs = t.Fun, t.TArgs
 				}
 			}
 			if lit != nil && len(ao.st.stack) <= x.MaxDepth+2 {
@@ -1599,6 +1689,7 @@ func (x *SX) call(call *ast.CallExpr, st *sxState, nres int) []evalOut {
 				if fd.Recv != nil && len(fd.Recv.List) == 1 && len(fd.Recv.List[0].Names) == 1 {
 					recvObj = c.Info.Defs[fd.Recv.List[0].Names[0]]
 				}
+				x.instArgs = targs
 				res = append(res, x.inline(fd.Type, fd.Body, recvObj, recv, args, call, ao.st, fun)...)
 				continue
 			}
@@ -1819,6 +1910,8 @@ func (x *SX) inline(ft *ast.FuncType, body *ast.BlockStmt, recvObj types.Object,
 	if recvObj != nil {
 		st.env[recvObj] = recv
 	}
+	instArgs := x.instArgs
+	x.instArgs = nil
 	if f != nil {
 		if sig, ok := f.Type().(*types.Signature); ok && sig.TypeParams().Len() > 0 {
 			var id *ast.Ident
@@ -1829,6 +1922,18 @@ func (x *SX) inline(ft *ast.FuncType, body *ast.BlockStmt, recvObj types.Object,
 				id, _ = unparen(fe.X).(*ast.Ident)
 			case *ast.IndexListExpr:
 				id, _ = unparen(fe.X).(*ast.Ident)
+			}
+			if instArgs != nil {
+				// called through a function value: the instance was fixed where the value was formed
+				ns := map[*types.TypeParam]types.Type{}
+				for k, v := range st.tsub {
+					ns[k] = v
+				}
+				for i := 0; i < sig.TypeParams().Len() && i < len(instArgs); i++ {
+					ns[sig.TypeParams().At(i)] = instArgs[i]
+				}
+				st.tsub = ns
+				id = nil
 			}
 			if id != nil {
 				if inst, ok := c.Info.Instances[id]; ok && inst.TypeArgs != nil {
